@@ -360,7 +360,7 @@ func runC19(b *runner.Batch) {
 func init() {
 	runner.Register(&runner.Check{
 		ID: "C19", Level: "exploration",
-		Rule:        "Money part: NeoFS contract in both Notary modes with 1/3/4/7 stored Alphabet keys on committees of 1/4/7, fee settings {0,1,10^7} changed in between; PRNG sequences of deposits (amounts {0,1,10^8,9000*10^8-1,9000*10^8,9000*10^8+1,10^13,...} x data {nil, empty, 19, 20, 21 bytes, ignore marker}), withdraw requests (own / foreign witness, amounts 0..9001, -1), cheques (authorised or not, amounts around the contract balance), candidate add/remove, NEO / foreign NEP-17 token / direct callback calls; after every transaction the contract's GAS balance must equal both the model (received - cheques) and the sum of native GAS Transfer notifications seen. Emit part: Alphabet contracts on committees of 1/3/4/7, Inner Ring sizes 1..7, contract balances {0,1,2,3,15,16,17,10^6,10^6+3,10^12}, NEO holdings with claims, callers {own node, other node, Alphabet multisig, stranger}; the outgoing transfer multiset and all balance deltas are compared with floor(g/2) / floor((g-floor(g/2))*7/8/N). distinct = (operation, amount/data/fee/mode class, outcome).",
+		Rule:        "Money part: NeoFS contract in both Notary modes with 1/3/4/7 stored Alphabet keys on committees of 1/4/7, fee settings {0,1,10^7} changed in between; PRNG sequences of deposits (amounts {0,1,10^8,9000*10^8-1,9000*10^8,9000*10^8+1,10^13,...} x data {nil, empty, 19, 20, 21 bytes, ignore marker}), withdraw requests (own / foreign witness, amounts 0..9001, -1), cheques (authorised or not, amounts around the contract balance), candidate add/remove, NEO / foreign NEP-17 token / direct callback calls; after every transaction the contract's GAS balance must equal both the model (received - cheques) and the sum of native GAS Transfer notifications seen. Emit part: Alphabet contracts on committees of 1/3/4/7, Inner Ring sizes 1..7, contract balances {0,1,2,3,15,16,17,10^6,10^6+3,10^12}, NEO holdings with claims, callers {own node, other node, Alphabet multisig, stranger}; the outgoing transfer multiset and all balance deltas are compared with floor(g/2) / floor((g-floor(g/2))*7/8/N). distinct = (operation, amount/data/fee/mode class, outcome). With two or more stored keys one authorised cheque in four is paid to a helper contract that asks for the same cheque again (same id) from inside its payment callback, while another ballot is pending.",
 		Assumptions: []string{"neo-go v0.107.0 VM, ledger and native contracts (GAS, NEO) are the trusted base", "contracts are compiled at check time from /repo/contracts"},
 		Batches:     c19Batches, Helpers: []string{"token", "reenter"}, Chunk: 4,
 		Floors: []string{"emit-right-after-inner-ring-rotation", "emit-with-committee-larger-than-the-validator-set", "withdraw-by-a-user-who-cannot-pay-every-receiver", "token-acceptance-null-sender:alphabet", "refused-neofs:foreign-mint", "deposit-accepted:len20-marker-prefix", "deposit-accepted:nil", "deposit-accepted:len0", "deposit-accepted:len20", "deposit-refused:amount", "deposit-refused:data-length", "deposit-ignored-by-marker", "withdraw-ok:notary=true", "withdraw-ok:notary=false", "withdraw-refused",
